@@ -185,5 +185,6 @@ func main() {
 		for _, u := range w.Units {
 			fmt.Printf("%s\n", u.Line())
 		}
+		fmt.Printf("%s\n", w.TemplateUnit().Line())
 	}
 }
